@@ -201,7 +201,13 @@ pub enum SyntaxError {
     TrailingTokensAfterProgramEnd,
     ReservedKeyword,
     InvalidAssignmentTarget,
+    NestingTooDeep,
 }
+
+/// Deepest nesting of statements and expressions the parser accepts. Every later stage
+/// (resolver, analysis, evaluator, value printing) recurses over the tree, so an unbounded
+/// tree depth is an unbounded native stack depth.
+const MAX_NESTING_DEPTH: usize = 256;
 
 impl AsStr for SyntaxError {
     fn as_str(&self) -> &'static str {
@@ -221,6 +227,7 @@ impl AsStr for SyntaxError {
             SyntaxError::TrailingTokensAfterProgramEnd => "Unexpected token",
             SyntaxError::ReservedKeyword => "Use of reserved keyword",
             SyntaxError::InvalidAssignmentTarget => "Invalid assignment target",
+            SyntaxError::NestingTooDeep => "Nesting too deep",
         }
     }
 }
@@ -241,13 +248,47 @@ where
     cur: SpannedToken<'ast>,
     errors: Diagnostics<'ast>,
     arena: &'ast Arena,
+    // Current nesting depth of statements and expressions (see MAX_NESTING_DEPTH)
+    depth: usize,
+    // Deepest point reached while parsing the current operand, so that an operator or
+    // postfix chain counts on top of the real height of its left-hand side.
+    peak: usize,
+    depth_reported: bool,
 }
 
 impl<'src: 'ast, 'ast> Parser<'src, 'ast> {
     /// Creates a new [`Parser`] instance.
     pub fn new(mut lexer: Lexer<'ast, 'src>, arena: &'ast Arena) -> Self {
         let cur = lexer.next().unwrap_or_default();
-        Self { lexer, cur, errors: Diagnostics::new(arena), arena }
+        Self {
+            lexer,
+            cur,
+            errors: Diagnostics::new(arena),
+            arena,
+            depth: 0,
+            peak: 0,
+            depth_reported: false,
+        }
+    }
+
+    /// Enters one nesting level. Returns false (after reporting once) when the
+    /// program nests deeper than the parser accepts.
+    fn enter_nesting(&mut self) -> bool {
+        self.depth += 1;
+        self.peak = self.peak.max(self.depth);
+        if self.depth <= MAX_NESTING_DEPTH {
+            return true;
+        }
+        if !self.depth_reported {
+            self.depth_reported = true;
+            let span = self.cur.span;
+            self.emit_error(
+                span,
+                SyntaxError::NestingTooDeep,
+                vec![Label { span, message: ArenaCow::Borrowed("Dis code nest too deep") }],
+            );
+        }
+        false
     }
 
     #[inline]
@@ -351,6 +392,21 @@ impl<'src: 'ast, 'ast> Parser<'src, 'ast> {
 
     #[inline]
     fn parse_statement(&mut self) -> StmtRef<'ast> {
+        if !self.enter_nesting() {
+            // Recover like a missing statement: always make progress.
+            self.bump();
+            self.synchronize();
+            self.depth -= 1;
+            let expr = self.alloc(Expr::Null(Range::default()));
+            return self.alloc(Stmt::Expression { expr, span: Range::default() });
+        }
+        let stmt = self.parse_statement_inner();
+        self.depth -= 1;
+        stmt
+    }
+
+    #[inline]
+    fn parse_statement_inner(&mut self) -> StmtRef<'ast> {
         let start = self.cur.span.start;
         match &self.cur.token {
             Token::Do => self.parse_function_def(start),
@@ -393,6 +449,7 @@ impl<'src: 'ast, 'ast> Parser<'src, 'ast> {
                 self.bump(); // consume `identifier`
 
                 let initial_expr = self.alloc(Expr::Var(var, var_span));
+                self.peak = self.depth;
                 let expr = self.parse_expression_continuation(initial_expr, 0);
 
                 if let Token::Get = self.cur.token {
@@ -862,7 +919,23 @@ impl<'src: 'ast, 'ast> Parser<'src, 'ast> {
 
     #[inline]
     fn parse_expression(&mut self, min_bp: u8) -> ExprRef<'ast> {
+        if !self.enter_nesting() {
+            // Recover like a missing expression.
+            self.synchronize();
+            self.depth -= 1;
+            let s = self.cur.span;
+            return self.alloc(Expr::Number("0", s));
+        }
+        let expr = self.parse_expression_inner(min_bp);
+        self.depth -= 1;
+        expr
+    }
+
+    #[inline]
+    fn parse_expression_inner(&mut self, min_bp: u8) -> ExprRef<'ast> {
         let start = self.cur.span.start;
+        let depth = self.depth;
+        let outer_peak = mem::replace(&mut self.peak, depth);
 
         // Parse the left-hand side (primary expression)
         let lhs = match mem::take(&mut self.cur.token) {
@@ -978,7 +1051,13 @@ impl<'src: 'ast, 'ast> Parser<'src, 'ast> {
             }
         };
 
-        self.parse_expression_continuation(lhs, min_bp)
+        // A chain of operators or postfixes grows the tree on top of `lhs`: keep counting
+        // from the deepest point inside it, not from where it started.
+        self.depth = self.peak;
+        let expr = self.parse_expression_continuation(lhs, min_bp);
+        self.depth = depth;
+        self.peak = self.peak.max(outer_peak);
+        expr
     }
 
     // Helper for handling binary operators and function calls
@@ -989,9 +1068,14 @@ impl<'src: 'ast, 'ast> Parser<'src, 'ast> {
         min_bp: u8,
     ) -> ExprRef<'ast> {
         let start = lhs.span().start;
+        let depth_at_entry = self.depth;
 
         // Pratt parselet for function calls and binary operators
         loop {
+            // Every round wraps `lhs` in one more node: a long chain is a deep tree too.
+            if !self.enter_nesting() {
+                break;
+            }
             // Member access: <expr>.<identifier>
             if let Token::Dot = self.cur.token {
                 self.bump(); // consume '.'
@@ -1132,6 +1216,7 @@ impl<'src: 'ast, 'ast> Parser<'src, 'ast> {
             let end = self.cur.span.end;
             lhs = self.alloc(Expr::Binary { op, lhs, rhs, span: Range::from(start..end) });
         }
+        self.depth = depth_at_entry;
         lhs
     }
 
